@@ -196,6 +196,22 @@ def run_verus_unit(meta, repo=REPO, timeout=600, rlimit=None):
     return res
 
 
+
+def run_group(cmd, timeout, **kw):
+    """subprocess.run with a new process group that is killed as a whole on timeout (cbmc children do not survive)"""
+    import signal
+    p = subprocess.Popen(cmd, stdout=subprocess.PIPE, stderr=subprocess.PIPE, text=True, start_new_session=True, **kw)
+    try:
+        out, err = p.communicate(timeout=timeout)
+        return p.returncode, out, err, False
+    except subprocess.TimeoutExpired:
+        try:
+            os.killpg(p.pid, signal.SIGKILL)
+        except ProcessLookupError:
+            pass
+        out, err = p.communicate()
+        return -9, out, err, True
+
 # --------------------------------------------------------------------------
 # Kani engine
 
@@ -244,7 +260,8 @@ def parse_kani_unit(path):
     return meta
 
 
-IGNORE_DEFAULT = re.compile(r'simd_(add|sub|mul|div)|pathfinder')
+# float-SIMD pseudo overflow of pathfinder, and Kani's informational NaN checks (a NaN result is not a Rust panic)
+IGNORE_DEFAULT = re.compile(r'simd_(add|sub|mul|div)|pathfinder|NaN on (addition|subtraction|multiplication|division)')
 
 
 class Scratch:
@@ -344,12 +361,9 @@ def run_kani(units, tier, jobs=8, repo=REPO, mem_kb=12_000_000, keep=False, only
             cmd += ['--harness', harness_path(u, h)]
         out['cmd'] = ' '.join(cmd)
         shell = f'ulimit -v {mem_kb}; exec ' + ' '.join(shell_quote(c) for c in cmd)
-        try:
-            p = subprocess.run(['bash', '-c', shell], cwd=sc.dir, env=kani_env(), capture_output=True, text=True,
-                               timeout=maxto * max(1, (len(selected) + jobs - 1) // jobs) + 900)
-            text = p.stdout + '\n' + p.stderr
-        except subprocess.TimeoutExpired as ex:
-            text = (ex.stdout or b'').decode('utf-8', 'replace') if isinstance(ex.stdout, bytes) else (ex.stdout or '')
+        rc, so, se, to = run_group(['bash', '-c', shell], maxto * max(1, (len(selected) + jobs - 1) // jobs) + 900, cwd=sc.dir, env=kani_env())
+        text = so + '\n' + se
+        if to:
             out['undecided'].append('cargo kani overall timeout')
         os.makedirs(GEN, exist_ok=True)
         open(os.path.join(GEN, 'kani-last.log'), 'w').write(text)
@@ -461,7 +475,7 @@ def parse_kani_output(text):
         m = re.search(r'\*\* (\d+) of (\d+) cover properties satisfied', t)
         if m:
             r['cover_sat'], r['cover_total'] = int(m.group(1)), int(m.group(2))
-        for m in re.finditer(r'Failed Checks: (.*)\n File: "([^"]*)", line (\d+), in (\S+)', t):
+        for m in re.finditer(r'Failed Checks: (.*)\n File: "([^"]*)", line (\d+), in (.*)', t):
             r['failed'].append({'desc': m.group(1).strip(), 'loc': f'{m.group(2)}:{m.group(3)}', 'fn': m.group(4)})
         for m in re.finditer(r'Failed Checks: (.*)\n(?! File:)', t):
             r['failed'].append({'desc': m.group(1).strip(), 'loc': '?', 'fn': '?'})
@@ -483,12 +497,9 @@ def parse_kani_output(text):
 def concrete_playback(sc, hpath):
     cmd = ['cargo', 'kani', '--target-dir', sc.target, '-Z', 'function-contracts', '-Z', 'stubbing', '-Z', 'concrete-playback',
            '--concrete-playback=print', '--exact', '--harness', hpath]
-    try:
-        p = subprocess.run(['bash', '-c', 'ulimit -v 16000000; exec ' + ' '.join(shell_quote(c) for c in cmd)],
-                           cwd=sc.dir, env=kani_env(), capture_output=True, text=True, timeout=900)
-    except subprocess.TimeoutExpired:
+    rc, text, se, to = run_group(['bash', '-c', 'ulimit -v 16000000; exec ' + ' '.join(shell_quote(c) for c in cmd)], 900, cwd=sc.dir, env=kani_env())
+    if to:
         return {'test': None, 'log': 'playback generation timed out'}
-    text = p.stdout
     m = re.search(r'```\s*\n(.*?)```', text, re.S)
     test = m.group(1) if m else None
     checks = '\n'.join(re.findall(r'(?m)^Check \d+:.*\n\t - Status: FAILURE\n\t - Description:.*\n\t - Location:.*', text))
